@@ -175,6 +175,10 @@ func Assert(id string, c bool) {
 	}
 }
 
+// Check is Assert for the native build; under the engine the path is not narrowed to the
+// states where the condition held (the harness goes on to examine the bad state).
+func Check(id string, c bool) { Assert(id, c) }
+
 func Reach(label string) {
 	mu.Lock()
 	defer mu.Unlock()
@@ -239,7 +243,7 @@ func Run(n string, f func()) {
 	}
 }
 
-func SchedMode(preemptions int) {}
+func SchedMode(preemptions int) { mainGid = gid() }
 func SchedOff()                 {}
 
 // ---- native schedule replay ------------------------------------------------
@@ -262,7 +266,21 @@ var (
 	spawned     sync.WaitGroup
 )
 
-func threadName() string { return threadNames[gid()] }
+// threadName: the Spawn name of the calling goroutine; "" for the harness's own goroutine;
+// "bg" for any other goroutine (the library's background goroutines, e.g. the WAL's rotation
+// goroutine), which the engine's schedule events also call "bg".
+func threadName() string {
+	g := gid()
+	if n, ok := threadNames[g]; ok {
+		return n
+	}
+	if mainGid == 0 || g == mainGid {
+		return ""
+	}
+	return "bg"
+}
+
+var mainGid uint64
 
 func seqWait(upto int) bool {
 	// wait until all events with index < upto are done (seqMu held)
